@@ -352,3 +352,37 @@ func TestZZFixedD38TailInDoubleIndirectRange(t *testing.T) {
 		}
 	}
 }
+
+// D-39: a WRITE that runs out of space right after allocating an index block commits the blocks
+// it did write; the index block stays in the inode above the end of file and was never freed.
+func TestZZFixedD39IndexBlockAboveEof(t *testing.T) {
+	c := MkNfsClient(100 * 1000)
+	defer c.Shutdown()
+	root := fh.MkRootFh3()
+	blk := bytes.Repeat([]byte{0xab}, 4096)
+	f := c.CreateOp(root, "f").Resok.Obj.Handle
+	g := c.CreateOp(root, "g").Resok.Obj.Handle
+	free0 := c.srv.fsstate.Balloc.NumFree()
+	for i := uint64(0); i < 7; i++ {
+		if w := c.WriteOp(f, i*4096, blk, nfstypes.FILE_SYNC); w.Status != 0 {
+			t.Fatalf("write f %d: %d", i, w.Status)
+		}
+	}
+	for i := uint64(0); c.srv.fsstate.Balloc.NumFree() > 2; i++ {
+		if w := c.WriteOp(g, i*4096, blk, nfstypes.FILE_SYNC); w.Status != 0 {
+			t.Fatalf("fill %d: %d free %d", i, w.Status, c.srv.fsstate.Balloc.NumFree())
+		}
+	}
+	if n := c.srv.fsstate.Balloc.NumFree(); n != 2 {
+		t.Fatalf("could not leave exactly two free blocks: %d", n)
+	}
+	w := c.WriteOp(f, 7*4096, append(append([]byte{}, blk...), blk...), nfstypes.FILE_SYNC)
+	t.Logf("two-block write at block 7 with two free blocks: status %d count %d, free now %d", w.Status, w.Resok.Count, c.srv.fsstate.Balloc.NumFree())
+	c.RemoveOp(root, "f")
+	c.srv.shrinkst.Shutdown()
+	c.RemoveOp(root, "g")
+	c.srv.shrinkst.Shutdown()
+	if free1 := c.srv.fsstate.Balloc.NumFree(); free1 != free0 {
+		t.Fatalf("after removing both files %d blocks are free, %d were free before they were written: %d leaked", free1, free0, free0-free1)
+	}
+}
